@@ -1,0 +1,23 @@
+//go:build verif
+
+package crypto
+
+// Lemma functions for the contract verifier (/verif). Compiled only with -tags verif and never called.
+// Each is ordinary Go code composing two functions of the module; its contract (contracts_verif.go) is a
+// round-trip statement, which the verifier proves from the contracts of the two callees.
+
+func verifLemmaECDSAPrivateKeyRoundTrip(sk *prKeyECDSA) (PrivateKey, error) {
+	return sk.alg.rawDecodePrivateKey(sk.rawEncode())
+}
+
+func verifLemmaECDSAPublicKeyRoundTrip(pk *pubKeyECDSA) (PublicKey, error) {
+	return pk.alg.rawDecodePublicKey(pk.rawEncode())
+}
+
+func verifLemmaECDSAPublicKeyCompressedRoundTrip(pk *pubKeyECDSA) (PublicKey, error) {
+	return pk.alg.decodePublicKeyCompressed(pk.EncodeCompressed())
+}
+
+func verifLemmaBLSPrivateKeyRoundTrip(a *blsBLS12381Algo, sk *prKeyBLSBLS12381) (PrivateKey, error) {
+	return a.decodePrivateKey(sk.Encode())
+}
